@@ -33,7 +33,8 @@ func (c06) Plan(tier string) wk.Plan {
 	cfgs := []wk.Config{
 		{Name: "cpu1", CPUs: 1, Race: true, Shards: 2},
 		{Name: "cpu4", CPUs: 4, Race: true, Shards: 2},
-		{Name: "cpu8-gmp2", CPUs: 8, GoMaxProcs: 2, Race: true, Shards: 1},
+		// one scheduler thread on several CPUs: the dependency still starts its workers (it looks at NumCPU)
+		{Name: "cpu4-gmp1", CPUs: 4, GoMaxProcs: 1, Race: true, Shards: 1},
 	}
 	if tier == "thorough" {
 		n = 12000
@@ -193,6 +194,14 @@ func (c06) Run(c *wk.Case) {
 		arg := bridge.ToReal(ref.NewList(items...), bridge.Variant{LazyLists: lazyArg})
 		got := evalReal(f, []value.Value{arg})
 		v, why := bridge.CompareOutcome(wv, we, false, got)
+		if v == bridge.Disagree && o.FailAt >= 0 && we == nil && got.Err != nil && c.Config != "cpu1" {
+			// The failing element lies behind the point where a stage of the pipeline (top, merge end...) stops
+			// reading: sequentially it is never evaluated. A stage in front of it that has switched to workers
+			// reads ahead, so the failure may surface - the property leaves that open.
+			c.Count("failure_behind_an_early_stop_surfaced_through_read_ahead", 1)
+			h.Write([]byte("OPEN"))
+			continue
+		}
 		if v == bridge.Disagree {
 			c.Violation("pipeline-differs-from-sequential-model", fmt.Sprintf("[%s] %q (n=%d): %s", c.Config, src, p.N, why), map[string]any{"src": src, "n": p.N, "why": why, "config": c.Config, "stages": p.Kinds, "terminal": p.Terminal})
 			return
@@ -217,7 +226,10 @@ func (c06) Run(c *wk.Case) {
 			c.Distinct("completion_orders", oh.Sum64())
 		}
 	}
-	c.Result(h.Sum64())
+	if !(o.FailAt >= 0 && we == nil) {
+		// (a failure the sequential evaluation never reaches may surface on some configurations only)
+		c.Result(h.Sum64())
+	}
 	near := false
 	for i, k := range p.Kinds {
 		if (k == "map" || k == "accept") && (i > 0 || i+1 < len(p.Kinds)) {
